@@ -164,19 +164,55 @@ def rule_taint(chk, repo):
            '--cleavage-exception default is not handled by the sanitiser', key='cli.common:add_args_cleavage::exception-default', fn=ca.qual)
 
     chk.rule('C10.b2', 'R-SIBLING: every regex use of `exception` follows the name->regex resolution EXPASY_RULES.get', 5)
+    # value flow, not spelling: a local is RESOLVED after `x = EXPASY_RULES.get(e, e)` with e the exception parameter (or a copy of
+    # it), whatever x is called; every regex call whose pattern derives from the parameter must see a resolved value on all paths
+    from sa import sem as _sem
+    RX = ('finditer', 'compile', 'search', 'match', 'findall', 'fullmatch', 'split', 'sub')
     for f in repo.funcs_in():
         if 'exception' not in f.params() or f.module.modname == 'fake':
             continue
-        uses = [c for c in G.find_calls(f.node, nested=False)
-                if call_name(c) in ('finditer', 'compile', 'search', 'match', 'findall') and c.args and unparse(c.args[0]) == 'exception']
-        if not uses:
-            continue
-        cfg = CFG(f.node)
-        res = [n.id for n in cfg.nodes if n.kind == 'stmt' and isinstance(n.ast, ast.Assign)
-               and unparse(n.ast.targets[0]) == 'exception' and unparse(n.ast.value) == 'EXPASY_RULES.get(exception, exception)']
+        fnode = f.node
+
+        def is_resolution(v, raw, res):
+            return isinstance(v, ast.Call) and isinstance(v.func, ast.Attribute) and v.func.attr == 'get' and unparse(v.func.value) == 'EXPASY_RULES' \
+                and len(v.args) == 2 and all(isinstance(a, ast.Name) and ('raw:' + a.id in raw or 'res:' + a.id in res) for a in v.args) \
+                and unparse(v.args[0]) == unparse(v.args[1])
+
+        def transfer(st, S):
+            # S holds 'raw:<name>' (carries the unresolved parameter) and 'res:<name>' (resolved)
+            if isinstance(st, ast.Assign) and len(st.targets) == 1 and isinstance(st.targets[0], ast.Name):
+                t = st.targets[0].id
+                out = set(x for x in S if x[4:] != t)
+                v = st.value
+                if is_resolution(v, S, S):
+                    out.add('res:' + t)
+                elif isinstance(v, ast.Name) and 'res:' + v.id in S:
+                    out.add('res:' + t)
+                elif isinstance(v, ast.Name) and 'raw:' + v.id in S:
+                    out.add('raw:' + t)
+                return frozenset(out)
+            if isinstance(st, (ast.AugAssign, ast.AnnAssign)) and isinstance(st.target, ast.Name):
+                return frozenset(x for x in S if x[4:] != st.target.id)
+            return S
+        cfg, state = _sem.must_set_flow(fnode, transfer, init={'raw:exception'})
+        # names that may ever carry the parameter (raw or resolved), for instance discovery
+        carriers = {'exception'}
+        for _ in range(3):
+            for a in walk_no_nested(fnode):
+                if isinstance(a, ast.Assign) and len(a.targets) == 1 and isinstance(a.targets[0], ast.Name):
+                    if any(isinstance(x, ast.Name) and x.id in carriers for x in ast.walk(a.value)) and \
+                            (isinstance(a.value, ast.Name) or (isinstance(a.value, ast.Call) and unparse(a.value.func) == 'EXPASY_RULES.get')):
+                        carriers.add(a.targets[0].id)
+        uses = [c for c in G.find_calls(fnode, nested=False)
+                if call_name(c) in RX and c.args and any(isinstance(x, ast.Name) and x.id in carriers for x in ast.walk(c.args[0]))
+                and isinstance(c.func, ast.Attribute) and unparse(c.func.value) in ('re', 'regex')]
         for u in uses:
             site = cfg.node_for(repo.enclosing_stmt(u))
-            ok = any(cfg.dominates(r, site) for r in res)
+            S = state.get(site)
+            a0 = u.args[0]
+            ok = S is not None and ((isinstance(a0, ast.Name) and ('res:' + a0.id) in S) or is_resolution(a0, S, S))
+            if S is None:
+                ok = True       # unreachable
             chk.ob('C10.b2', f"{f.qual}: {unparse(u)[:50]}", repo.loc(f, u), ok,
                    f"{f.name}() matches the exception *name* as a regex without resolving it through EXPASY_RULES "
                    "(its siblings do): 'trypsin_exception' never matches, so no exception site is ever found",
@@ -192,20 +228,54 @@ def rule_pool_shape(chk, repo):
     if len(calls) != 1:
         raise AnalysisError(f"anchor={POOL}: enzymatic_cleave call not found")
     site = cfg.node_for(repo.enclosing_stmt(calls[0]))
-    nodes = {norm_stmt(n.ast): n.id for n in cfg.nodes if n.kind == 'stmt'}
-    tests = {unparse(n.ast): n.id for n in cfg.nodes if n.kind == 'test'}
-    # leading X strip
-    t = tests.get("protein.seq.startswith('X')")
-    s = nodes.get("protein.seq = protein.seq.lstrip('X')")
-    ok = t is not None and s is not None and cfg.dominates(t, site) and cfg.edge_dominates(t, 'T', s)
-    chk.ob('C10.c', 'leading X stripped before digestion', f.where, ok, "leading-X strip does not precede the digest", key=POOL + '::x-strip', fn=f.qual)
+    from sa import sem
+    # names are taken from the code: P the record that is digested, R the digest result
+    if not isinstance(calls[0].func, ast.Attribute) or not isinstance(calls[0].func.value, ast.Name):
+        raise AnalysisError(f"anchor={POOL}: receiver of enzymatic_cleave is not a local name")
+    P = calls[0].func.value.id
+    dst = repo.enclosing_stmt(calls[0])
+    R = dst.targets[0].id if isinstance(dst, ast.Assign) and len(dst.targets) == 1 and isinstance(dst.targets[0], ast.Name) else None
+    loops_ = [a for a in repo.ancestors(dst) if isinstance(a, (ast.While, ast.For))]
+    if not loops_:
+        raise AnalysisError(f"anchor={POOL}: the digest is not inside the loop over the proteome")
+    ploop = loops_[0]
+    anchor = dst
+    for a in repo.ancestors(dst):
+        if a is ploop:
+            break
+        anchor = a
+    if anchor not in ploop.body:
+        raise AnalysisError(f"anchor={POOL}: digest statement not found in the proteome loop body")
+    pre = ploop.body[:ploop.body.index(anchor)]
+    chains_ = sem.block_chains(f.node)
+
+    def ex(st, e, calls_=()):
+        return unparse(sem.expand_names(f.node, st, e, chains=chains_, allow_calls=calls_))
+
+    def cond_lits(st):
+        c = sem.conj_literals(sem.expand_names(f.node, st, st.test, chains=chains_, allow_calls=('find', 'startswith')))
+        return c or set()
+    xs_assign = f"{P}.seq = {P}.seq.lstrip('X')"
+    x_strip = [st for st in pre if (norm_stmt(st) == xs_assign) or
+               (isinstance(st, ast.If) and not st.orelse and len(st.body) == 1 and norm_stmt(st.body[0]) == xs_assign
+                and cond_lits(st) == {sem.lit(f"{P}.seq.startswith('X')")})]
+    chk.ob('C10.c', 'leading X stripped before digestion', f.where, len(x_strip) == 1, "leading-X strip does not precede the digest", key=POOL + '::x-strip', fn=f.qual)
     # first stop cut
-    a = nodes.get("stop_site = protein.seq.find('*')")
-    t2 = tests.get('stop_site > -1')
-    c = nodes.get('protein = protein[:stop_site]')
-    ok = None not in (a, t2, c) and cfg.dominates(a, site) and cfg.dominates(t2, site) and cfg.edge_dominates(t2, 'T', c)
-    chk.ob('C10.c', 'sequence cut at the first stop before digestion', f.where, ok,
+    stop_tests = [{sem.lit(f"{P}.seq.find('*') > -1")}, {sem.lit(f"{P}.seq.find('*') != -1")}, {sem.lit(f"{P}.seq.find('*') >= 0")},
+                  {sem.lit(f"'*' in {P}.seq")}]
+
+    def is_cut(st, ctx):
+        if not (isinstance(st, ast.Assign) and len(st.targets) == 1 and unparse(st.targets[0]) == P and isinstance(st.value, ast.Subscript)
+                and unparse(st.value.value) == P and isinstance(st.value.slice, ast.Slice) and st.value.slice.lower is None and st.value.slice.step is None
+                and st.value.slice.upper is not None):
+            return False
+        return ex(ctx, st.value.slice.upper, ('find',)) == f"{P}.seq.find('*')"
+    cuts = [st for st in pre if isinstance(st, ast.If) and not st.orelse and len(st.body) == 1 and is_cut(st.body[0], st) and cond_lits(st) in stop_tests]
+    chk.ob('C10.c', 'sequence cut at the first stop before digestion', f.where, len(cuts) == 1,
            "the proteome sequence is not cut at the first '*' before the digest", key=POOL + '::stop-cut', fn=f.qual)
+    other_w = [w for w in G.writes_in(pre) if w[0] == P and not any(any(w[2] is y for y in ast.walk(x)) for x in x_strip + cuts)]
+    chk.ob('C10.c', 'the record is not otherwise altered before the digest', repo.loc(f, other_w[0][2]) if other_w else f.where, not other_w,
+           f"the proteome entry is modified before it is digested: {norm_stmt(other_w[0][2]) if other_w else ''}", key=POOL + '::pre-digest-writes', fn=f.qual)
     # cds_start_nf from the annotation, threaded
     k = kwarg(calls[0], 'cds_start_nf')
     # every value that can reach the cds_start_nf argument: the annotation's flag of THIS protein's transcript, or False when the
@@ -233,32 +303,44 @@ def rule_pool_shape(chk, repo):
             chk.ob('C10.c', f'{p} not rebound in the pool builder', repo.loc(f, w[0][2]), False, f"{p} is rebound: {norm_stmt(w[0][2])}",
                    key=POOL + f'::rebinding::{p}', fn=f.qual)
     # I/L pairing
-    adds = [c for c in G.find_calls(f.node, 'add') if unparse(c.func.value) == 'pool']
-    texts = sorted(unparse(c.args[0]) for c in adds)
-    ok = len(adds) == 2 and texts == sorted(['str(peptide.seq)', "str(peptide.seq).replace('I', 'L')"])
+    rets = [n for n in walk_no_nested(f.node) if isinstance(n, ast.Return)]
+    POOLN = unparse(rets[0].value) if len(rets) == 1 and isinstance(rets[0].value, ast.Name) else 'pool'
+    ploops = [l for l in walk_no_nested(ploop) if isinstance(l, ast.For) and R is not None and unparse(l.iter) == R and isinstance(l.target, ast.Name)]
+    ok = len(ploops) == 1
+    texts = []
     if ok:
-        st = [repo.enclosing_stmt(c) for c in adds]
-        blk_ok = repo.parent(st[0]) is repo.parent(st[1]) and isinstance(repo.parent(st[0]), ast.For) and \
-            unparse(repo.parent(st[0]).iter) == 'peptides'
-        ok = blk_ok
+        v = ploops[0].target.id
+        adds = [st for st in ploops[0].body if isinstance(st, ast.Expr) and isinstance(st.value, ast.Call) and isinstance(st.value.func, ast.Attribute)
+                and st.value.func.attr == 'add' and unparse(st.value.func.value) == POOLN and len(st.value.args) == 1]
+        all_adds = [c for c in G.find_calls(f.node, 'add') if unparse(c.func.value) == POOLN]
+        texts = sorted(ex(st, st.value.args[0], ('str', 'replace')) for st in adds)
+        ok = len(adds) == 2 and len(all_adds) == 2 and texts == sorted([f'str({v}.seq)', f"str({v}.seq).replace('I', 'L')"])
     chk.ob('C10.c', 'each peptide is added together with its I->L image', f.where, ok,
            f"pool.add calls {texts} are not the peptide and its I->L image added for every digested peptide", key=POOL + '::il-pairing', fn=f.qual)
     # returns the pool
-    rets = [n for n in walk_no_nested(f.node) if isinstance(n, ast.Return)]
-    chk.ob('C10.c', 'returns the assembled pool', f.where, len(rets) == 1 and unparse(rets[0].value) == 'pool', 'pool not returned', key=POOL + '::return', fn=f.qual)
+    inits = [n for n in f.node.body if isinstance(n, ast.Assign) and unparse(n.targets[0]) == POOLN]
+    chk.ob('C10.c', 'returns the assembled pool', f.where, len(rets) == 1 and len(inits) == 1 and unparse(inits[0].value) == 'set()', 'pool not returned', key=POOL + '::return', fn=f.qual)
     # every protein is digested: loop advances only via next(it) after adding, or `continue` after trimming at X
-    loop = [n for n in walk_no_nested(f.node) if isinstance(n, ast.While)]
-    ok = len(loop) == 1 and unparse(loop[0].test) == 'protein'
+    ok = isinstance(ploop, ast.While) and unparse(ploop.test) == P
     if ok:
-        ps = iteration_paths(cfg, loop[0], max_paths=5000)
+        ps = iteration_paths(cfg, ploop, max_paths=5000)
         chk.paths += len(ps)
+
+        def is_adv(a):
+            return isinstance(a, ast.Assign) and unparse(a.targets[0]) == P and isinstance(a.value, ast.Call) and call_name(a.value) == 'next'
+
+        def is_trim(a):
+            return isinstance(a, ast.Assign) and unparse(a.targets[0]) == f'{P}.seq' and unparse(a.value) == f"{P}.seq.split('X')[0]"
         for p in ps:
             if p.end_kind() in ('back', 'continue'):
-                adv = p.count(lambda n: n.kind == 'stmt' and norm_stmt(n.ast) == 'protein = next(it, None)')
-                trimmed = p.count(lambda n: n.kind == 'stmt' and norm_stmt(n.ast) == "protein.seq = protein.seq.split('X')[0]")
-                digested = p.count(lambda n: n.kind == 'iter' and unparse(n.ast.iter) == 'peptides')
+                adv = p.count(lambda n: n.kind == 'stmt' and is_adv(n.ast))
+                trimmed = p.count(lambda n: n.kind == 'stmt' and is_trim(n.ast))
+                digested = p.count(lambda n: n.kind == 'iter' and unparse(n.ast.iter) == R)
                 if not ((adv == 1 and digested >= 1) or (adv == 0 and trimmed == 1)):
                     ok = False
+    elif isinstance(ploop, ast.For):
+        # `for P in self.values()`: the advance is the loop itself; no early exit, the digest is not skipped
+        ok = not sem.own_exits(ploop) and not any(isinstance(x, ast.Continue) for st in pre for x in ast.walk(st))
     chk.ob('C10.c', 'every proteome entry is digested (advance only after its peptides were added)', f.where, ok,
            'a path advances to the next protein without adding the peptides of the current one', key=POOL + '::every-protein', fn=f.qual)
 
@@ -300,68 +382,181 @@ def rule_thread(chk, repo, rid='C10.d', quals=('cli.generate_index:generate_inde
 
 
 def rule_cleave(chk, repo, rid='C10.e'):
+    """The digest enumerates every window of consecutive fragments: decided on the normal form, from the index domains of
+    the two counting loops (sem.counted_loop: `while`+counter and `for ... in range` are the same domain) and the
+    must-facts at the emitting calls - not from the spelling of the loops."""
+    from sa import sem
+    from sa.affine import simple_aff, Aff
     chk.rule(rid, 'R-ONCE: enzymatic_cleave emits every window within the miscleavage limit; M-removal guard', 7)
     f = repo.func(CLEAVE)
     chk.uses(f)
-    cfg = CFG(f.node)
-    rel = f.module.relpath
-    whiles = [n for n in walk_no_nested(f.node) if isinstance(n, ast.While)]
-    if len(whiles) != 2:
-        raise AnalysisError(f"anchor={CLEAVE}: expected outer/inner while loops")
-    outer, inner = whiles[0], whiles[1]
-    if inner.lineno < outer.lineno:
-        outer, inner = inner, outer
-    chk.ob(rid, 'outer loop visits every start site', repo.loc(f, outer), unparse(outer.test) == 'start < len(sites) - 1',
-           f"outer loop test is '{unparse(outer.test)}'", key=CLEAVE + '::outer-test', fn=f.qual)
-    t = unparse(inner.test).replace(' ', '')
-    chk.ob(rid, 'inner loop admits exactly miscleavage+1 consecutive fragments', repo.loc(f, inner),
-           t in ('end-start-1<=miscleavageandend<len(sites)', 'end<len(sites)andend-start-1<=miscleavage'),
-           f"inner loop test is '{unparse(inner.test)}' (miscleavage window altered)", key=CLEAVE + '::inner-test', fn=f.qual)
-    ps = iteration_paths(cfg, inner, max_paths=2000)
-    chk.paths += len(ps)
-    bad = None
-    for p in ps:
-        once = p.count(lambda n: n.kind == 'stmt' and norm_stmt(n.ast) == 'update_peptides(peptide)')
-        adv = p.count(lambda n: n.kind == 'stmt' and norm_stmt(n.ast) == 'end += 1')
-        if p.end_kind() != 'back' or once != 1 or adv != 1:
-            bad = bad or p
-    chk.ob(rid, 'every inner iteration emits the window and advances (no early exit)', repo.loc(f, inner), bad is None,
-           'an iteration path of the window loop leaves early or skips update_peptides(peptide)/end += 1: some digestion '
-           'products (or their M-removed form) are never considered', key=CLEAVE + '::inner-once',
-           path=bad.describe(rel) if bad else None, fn=f.qual)
-    ps2 = iteration_paths(cfg, outer, loop_bound=1, max_paths=5000)
-    bad2 = [p for p in ps2 if p.end_kind() != 'back' or p.count(lambda n: n.kind == 'stmt' and norm_stmt(n.ast) == 'start += 1') != 1
-            or p.count(lambda n: n.kind == 'stmt' and norm_stmt(n.ast) == 'end = start + 1') != 1]
-    chk.ob(rid, 'outer iteration resets end and advances start exactly once', repo.loc(f, outer), not bad2,
-           'outer loop bookkeeping altered', key=CLEAVE + '::outer-once', path=bad2[0].describe(rel) if bad2 else None, fn=f.qual)
-    # M removal guard
-    mcalls = [c for c in G.find_calls(inner, 'update_peptides') if unparse(c.args[0]) == 'peptide[1:]']
+    n = sem.nf(repo, f)
+    params = [a.arg for a in n.args.args]
+    me = params[0] if params else 'self'
+    for need in ('miscleavage', 'cds_start_nf', 'min_length', 'max_length', 'min_mw', 'rule', 'exception'):
+        if need not in params:
+            raise AnalysisError(f"anchor={CLEAVE}: parameter {need} not found")
+    parent = {}
+    for x in ast.walk(n):
+        for c in ast.iter_child_nodes(x):
+            parent[id(c)] = x
+
+    def idx_of(e):      # S[a] -> (S, a)
+        if isinstance(e, ast.Subscript) and isinstance(e.value, ast.Name) and isinstance(e.slice, ast.Name):
+            return e.value.id, e.slice.id
+        return None
+    wins = []
+    for x in walk_no_nested(n):
+        if isinstance(x, ast.Subscript) and isinstance(x.slice, ast.Slice) and unparse(x.value) == me and x.slice.step is None \
+                and x.slice.lower is not None and x.slice.upper is not None:
+            lo_, up_ = idx_of(x.slice.lower), idx_of(x.slice.upper)
+            if lo_ and up_ and lo_[0] == up_[0]:
+                wins.append((x, lo_[0], lo_[1], up_[1]))
+    if len(wins) != 1:
+        raise AnalysisError(f"anchor={CLEAVE}: the window `{me}[<sites>[a]:<sites>[b]]` not found exactly once ({len(wins)})")
+    win, S, a, b = wins[0]
+    loops = []
+    x = win
+    while id(x) in parent:
+        x = parent[id(x)]
+        if isinstance(x, (ast.For, ast.While)):
+            loops.append(x)
+    if len(loops) != 2:
+        raise AnalysisError(f"anchor={CLEAVE}: expected the window inside two nested loops, found {len(loops)}")
+    inner, outer = loops
+    chains = sem.block_chains(n)
+    lenS = Aff.sym(f"len({S})")
+    # --- outer domain
+    od = sem.counted_loop(n, outer, chains)
+    if od is None:
+        chk.undecided(rid, 'outer loop visits every start site', repo.loc(f, outer), f"the loop `{unparse(outer).splitlines()[0]}` is not a recognised counting loop", key=CLEAVE + '::outer-test', fn=f.qual)
+        chk.undecided(rid, 'outer iteration resets end and advances start exactly once', repo.loc(f, outer), 'see outer-test', key=CLEAVE + '::outer-once', fn=f.qual)
+    else:
+        v, lo, ups, probs = od
+        chk.ob(rid, 'outer loop visits every start site', repo.loc(f, outer), v == a and lo == Aff(0) and ups == frozenset([lenS - 1]),
+               f"the first boundary index {v} runs over [{lo!r}, min{sorted(map(repr, ups))}) instead of [0, len({S}) - 1): windows starting at some site are never produced "
+               "(or a window past the last boundary is read)", key=CLEAVE + '::outer-test', fn=f.qual)
+        chk.ob(rid, 'outer iteration advances the first boundary exactly once', repo.loc(f, outer), not probs and not sem.own_exits(outer),
+               'outer loop bookkeeping altered: ' + '; '.join(probs + [f"early exit `{norm_stmt(e)}`" for e in sem.own_exits(outer)]), key=CLEAVE + '::outer-once', fn=f.qual)
+    # --- inner domain
+    idm = sem.counted_loop(n, inner, chains)
+    if idm is None:
+        chk.undecided(rid, 'inner loop admits exactly miscleavage+1 consecutive fragments', repo.loc(f, inner), f"the loop `{unparse(inner).splitlines()[0]}` is not a recognised counting loop", key=CLEAVE + '::inner-test', fn=f.qual)
+    else:
+        v, lo, ups, probs = idm
+        want = frozenset([Aff.sym(a) + Aff.sym('miscleavage') + 2, lenS])
+        chk.ob(rid, 'inner loop admits exactly miscleavage+1 consecutive fragments', repo.loc(f, inner),
+               v == b and lo == Aff.sym(a) + 1 and ups == want and not probs,
+               f"the second boundary index {v} runs over [{lo!r}, min{sorted(map(repr, ups))}) instead of [{a} + 1, min({a} + miscleavage + 2, len({S}))) "
+               f"(miscleavage window altered){'; ' + '; '.join(probs) if probs else ''}", key=CLEAVE + '::inner-test', fn=f.qual)
+    # --- the local filter function and its calls
+    ups_ = [x for x in n.body if isinstance(x, ast.FunctionDef)]
+    if len(ups_) != 1:
+        raise AnalysisError(f"anchor={CLEAVE}: the local filter function not found")
+    U = ups_[0]
+    wstmt = win
+    while not isinstance(wstmt, ast.stmt):
+        wstmt = parent[id(wstmt)]
+    W = wstmt.targets[0].id if isinstance(wstmt, ast.Assign) and len(wstmt.targets) == 1 and isinstance(wstmt.targets[0], ast.Name) and wstmt.value is win else None
+
+    def is_win(e):
+        return (W is not None and isinstance(e, ast.Name) and e.id == W) or e is win
+    whole = [st for st in inner.body if isinstance(st, ast.Expr) and isinstance(st.value, ast.Call) and call_name(st.value) == U.name
+             and len(st.value.args) == 1 and is_win(st.value.args[0])]
+    nested_whole = [c for c in G.find_calls(inner, U.name) if len(c.args) == 1 and is_win(c.args[0])]
+    exits = sem.own_exits(inner)
+    chk.ob(rid, 'every inner iteration emits the window and advances (no early exit)', repo.loc(f, inner),
+           len(whole) == 1 and len(nested_whole) == 1 and not exits and (W is None or wstmt in inner.body),
+           'the window loop leaves early or does not hand every window to the digest filter unconditionally: some digestion '
+           'products (or their M-removed form) are never considered', key=CLEAVE + '::inner-once', fn=f.qual)
+    # --- M removal guard
+    def is_mrem(e):
+        return isinstance(e, ast.Subscript) and isinstance(e.slice, ast.Slice) and is_win(e.value) and e.slice.upper is None and e.slice.step is None \
+            and isinstance(e.slice.lower, ast.Constant) and e.slice.lower.value == 1
+    sites = sem.facts_where(n, lambda st: any(len(c.args) == 1 and is_mrem(c.args[0]) for c in sem.calls_in_stmt(st, U.name)))
     ok = False
-    if len(mcalls) == 1:
-        site = cfg.node_for(repo.enclosing_stmt(mcalls[0]))
-        fx = G.facts_at(cfg, site)
-        ok = fx.get('0 == start') is True and fx.get('cds_start_nf') is False and fx.get("peptide.seq.startswith('M')") is True
-        ok = ok and len([k for k in fx if k not in ('0 == start', 'cds_start_nf', "peptide.seq.startswith('M')",
-                                                    'start < len(sites) - 1', 'end - start - 1 <= miscleavage', 'end < len(sites)')]) == 0
-    chk.ob(rid, "M-removed form emitted iff start==0, not cds_start_nf, startswith('M')", repo.loc(f, inner), ok,
-           'the N-terminal-methionine-removed form is not guarded by exactly (first fragment, known CDS start, leading M)',
+    detail = 'the N-terminal-methionine-removed form is not guarded by exactly (first fragment, known CDS start, leading M)'
+    if len(sites) == 1 and sites[0][1] is not None:
+        lits = sem.sure_literals(sites[0][1])
+        wn = W or unparse(win)
+        need = {sem.lit(f"{a} == 0"), sem.lit('cds_start_nf', False), sem.lit(f"{wn}.seq.startswith('M')")}
+        allowed = set()
+        for lp_ in (outer, inner):
+            if isinstance(lp_, ast.While):
+                allowed |= (sem.conj_literals(lp_.test) or set())
+        # value facts of locals bound to a display / constant (`peptides = []`) are not conditions
+        valued = {t.id for st in ast.walk(n) if isinstance(st, ast.Assign) and isinstance(st.value, (ast.List, ast.Constant, ast.Dict, ast.Set, ast.Tuple))
+                  for t in st.targets if isinstance(t, ast.Name)}
+        extra = {l for l in lits - need - allowed if l[0] not in valued}
+        ok = need <= lits and not extra
+        if not ok:
+            detail += f": missing {sorted(need - lits)}, additional conditions {sorted(extra)}"
+    elif len(sites) != 1:
+        detail += f" ({len(sites)} emitting calls of the M-removed form)"
+    chk.ob(rid, "M-removed form emitted iff start==0, not cds_start_nf, startswith('M')", repo.loc(f, inner), ok, detail,
            key=CLEAVE + '::m-removal-guard', fn=f.qual)
-    # sites = [0] + cleave sites + [len]
-    txt = [norm_stmt(s) for s in f.node.body if not isinstance(s, (ast.FunctionDef, ast.While, ast.Expr)) or isinstance(s, ast.Expr)]
-    ok = 'sites = [0]' in txt and 'sites.append(len(self))' in txt and \
-        any(t.startswith('sites += self.find_all_enzymatic_cleave_sites(rule=rule, exception=exception)') for t in txt)
-    chk.ob(rid, 'fragment boundaries are 0, every cleave site, len', f.where, ok, 'site list construction altered',
+    # --- boundaries = [0] + cleave sites + [len]
+    seq, okS = [], True
+
+    def flat(e):
+        if isinstance(e, ast.List):
+            return [('elt', unparse(x)) for x in e.elts]
+        if isinstance(e, ast.BinOp) and isinstance(e.op, ast.Add):
+            return flat(e.left) + flat(e.right)
+        return [('seq', e)]
+    for st in n.body:
+        if st is outer:
+            break
+        if isinstance(st, ast.Assign) and len(st.targets) == 1 and unparse(st.targets[0]) == S:
+            seq = flat(st.value)
+        elif isinstance(st, ast.AugAssign) and unparse(st.target) == S and isinstance(st.op, ast.Add):
+            seq += flat(st.value)
+        elif isinstance(st, ast.Expr) and isinstance(st.value, ast.Call) and isinstance(st.value.func, ast.Attribute) and unparse(st.value.func.value) == S:
+            if st.value.func.attr == 'append' and len(st.value.args) == 1:
+                seq.append(('elt', unparse(st.value.args[0])))
+            elif st.value.func.attr == 'extend' and len(st.value.args) == 1:
+                seq += flat(st.value.args[0])
+            else:
+                okS = False
+        elif not isinstance(st, ast.FunctionDef) and any(isinstance(x, ast.Name) and x.id == S and isinstance(x.ctx, ast.Store) for x in ast.walk(st)):
+            okS = False
+    later_writes = [x for st in [outer] for x in ast.walk(st) if (isinstance(x, ast.Name) and x.id == S and isinstance(x.ctx, ast.Store))
+                    or (isinstance(x, ast.Call) and isinstance(x.func, ast.Attribute) and unparse(x.func.value) == S and x.func.attr in ('append', 'extend', 'pop', 'insert', 'remove', 'sort', 'reverse', 'clear'))]
+    okS = okS and not later_writes and len(seq) == 3 and seq[0] == ('elt', '0') and seq[2] == ('elt', f'len({me})') and seq[1][0] == 'seq'
+    if okS:
+        c = seq[1][1]
+        okS = isinstance(c, ast.Call) and call_name(c) == 'find_all_enzymatic_cleave_sites' and unparse(c.func.value) == me
+        if okS:
+            callee = repo.func('aa.AminoAcidSeqRecord:AminoAcidSeqRecord.find_all_enzymatic_cleave_sites')
+            cps = [x.arg for x in callee.node.args.args][1:]
+            bound = {cps[i]: unparse(x) for i, x in enumerate(c.args) if i < len(cps)}
+            bound.update({k.arg: unparse(k.value) for k in c.keywords if k.arg})
+            okS = bound.get('rule') == 'rule' and bound.get('exception') == 'exception'
+    chk.ob(rid, 'fragment boundaries are 0, every cleave site, len', f.where, okS, 'site list construction altered (boundaries must be [0] + the cleave sites of (rule, exception) + [len])',
            key=CLEAVE + '::sites', fn=f.qual)
-    # filter inside update_peptides
-    up = [n for n in walk_no_nested(f.node) if isinstance(n, ast.FunctionDef) and n.name == 'update_peptides']
-    ok = False
-    if up:
-        t = unparse(up[0])
-        ok = "if 'X' in peptide.seq:\n        return" in t and 'len(peptide.seq) >= min_length' in t and \
-            'len(peptide.seq) <= max_length' in t and ('mol_wt > min_mw' in t or 'mol_wt >= min_mw' in t) and \
-            'if weight_flag and length_flag:\n        peptides.append(peptide)' in t
-    chk.ob(rid, 'digest filter = no X, length within [min,max], mass above min', repo.loc(f, up[0]) if up else f.where, ok,
-           'update_peptides filter altered', key=CLEAVE + '::filter', fn=f.qual)
+    # --- the digest filter
+    app = sem.facts_where(U, lambda st: bool([c for c in ast.walk(st) if isinstance(c, ast.Call) and isinstance(c.func, ast.Attribute)
+                                             and c.func.attr in ('append', 'add') and len(c.args) == 1 and unparse(c.args[0]) == U.args.args[0].arg]))
+    okF = False
+    detailF = 'update_peptides filter altered'
+    if len(app) == 1 and app[0][1] is not None and len(U.args.args) == 1:
+        pn = U.args.args[0].arg
+        lits = sem.sure_literals(app[0][1])
+        chainsU = sem.block_chains(U)
+        # expand flag / weight locals in the literal texts
+        exp = set()
+        for t, p in lits:
+            e = ast.parse(t, mode='eval').body
+            e2 = sem.expand_names(U, app[0][0], e, chains=chainsU, allow_calls=('molecular_weight', 'len'))
+            c2 = sem.conj_literals(e2, p)
+            exp |= c2 if c2 is not None else {sem.lit(unparse(e2), p)}
+        mw = f"SeqUtils.molecular_weight({pn}.seq, 'protein')"
+        need = {sem.lit(f"'X' in {pn}.seq", False), sem.lit(f"len({pn}.seq) >= min_length"), sem.lit(f"len({pn}.seq) <= max_length")}
+        mass = {sem.lit(f"{mw} > min_mw"), sem.lit(f"{mw} >= min_mw")}
+        okF = need <= exp and len(exp & mass) == 1 and not (exp - need - mass)
+        if not okF:
+            detailF += f": accepted under {sorted(exp)}"
+    chk.ob(rid, 'digest filter = no X, length within [min,max], mass above min', repo.loc(f, U), okF, detailF, key=CLEAVE + '::filter', fn=f.qual)
 
 
 def rule_oneshot(chk, repo, rid='C10.f'):
